@@ -385,15 +385,20 @@ def sep_configs(tier):
     out = []
     pairs = [('l', ('l', 'A')), ('l', ('l', 'B')), ('l', ('g', 'A')), ('gl', ('l', 'A')), ('gl', ('g', 'B')), ('g', ('g', 'B'))]
     if not quick:
-        pairs += [('gl', ('gl', 'A')), ('l', ('gl', 'B')), ('s', ('s', 'A')), ('gl', ('gl', 'B'))]
+        pairs += [('gl', ('gl', 'A')), ('l', ('gl', 'B')), ('s', ('s', 'A'))]
     for r, o in pairs:
+        multi, omulti = len(r) > 1, len(o[0]) > 1
         for eb in [True, False]:
-            if not eb and quick and (r, o) not in (('l', ('l', 'B')), ('gl', ('l', 'A'))):
+            if not eb and (omulti or (quick and (r, o) not in (('l', ('l', 'B')), ('gl', ('l', 'A'))))):
                 continue
-            multi = len(r) > 1
-            first = ('first-row-pos' if multi and len(o[0]) == 1 else 'pos+maybe', 'pos')
-            more = [('pos+maybe', 'pos')] if multi and first[0] != 'pos+maybe' else ([] if multi else [('pos+pos', 'pos+maybe')])
-            for sm, om in ([first] if quick or not eb else [first] + more):
+            # presence patterns (self, other); the number of possibly non-zero entries drives the cost of the nonlinear VCs
+            if multi and omulti:
+                modes = [('pos', 'pos')]
+            elif multi:
+                modes = [('first-row-pos', 'pos')] + ([('pos+maybe', 'pos')] if eb and not quick else [])
+            else:
+                modes = [('pos+maybe', 'pos')] + ([('pos+pos', 'pos+maybe')] if eb and not quick else [])
+            for sm, om in modes:
                 out.append({'name': f'self={r}:{sm};other={o[0]}{o[1]}:{om};eb={eb}', 'self': r, 'other': list(o), 'eb': eb,
                             'smode': sm, 'omode': om})
     return out
